@@ -31,7 +31,9 @@ ASSUMPTIONS = [
     "def parameters named like reserved words and module-level assignment of reserved names are outside the statement",
 ]
 
-SITES = ["ctx", "page", "body", "defarg", "encl", "loop", "module", "import", "builtin"]
+# ("nsother": a <%namespace import=..> of ANOTHER name - binds nothing relevant, but switches the generated lookups of
+# every context name to the form that consults the imports first)
+SITES = ["ctx", "page", "body", "defarg", "encl", "loop", "module", "import", "builtin", "nsother"]
 READS = ["body", "topdef", "topdef-callbody", "nested", "anonblock", "namedblock", "callbody", "ctl", "attr", "attr-multi", "filter"]
 BODY_SCOPE_READS = {"body", "anonblock", "callbody", "ctl", "attr", "attr-multi", "filter"}
 _k = itertools.count()
@@ -94,6 +96,8 @@ def build(S, r):
         head += "<%%! %s = 'module' %%>" % name
     if "import" in S:
         head += '<%%namespace file="/c04lib_%s.html" import="%s"/>' % (name, name)
+    if "nsother" in S:
+        head += '<%namespace file="/c04lib_other.html" import="c04_other_def"/>'
     head += '<%def name="w()">${caller.body()}</%def><%def name="w2(a)">${a}</%def>'
     # a second module-level block after everything else: names of every <%! %> block are module-level, not only the last
     head += "<%! c04_other_module_name = 1 %>"
@@ -176,6 +180,7 @@ def check_matrix(S, r, strict, ev=None):
     lk = TemplateLookup(strict_undefined=strict)
     lk.put_string("/c04lib_%s.html" % name, '<%%def name="%s()">import</%%def>' % name)
     lk.put_string("/c04inc.html", "")
+    lk.put_string("/c04lib_other.html", '<%def name="c04_other_def()">other</%def>')
     uri = "/c04_%d.html" % next(_k)
     ctx = helpers()
     if "ctx" in S:
@@ -246,7 +251,8 @@ def matrix_cases():
     subsets += list(itertools.combinations(SITES, 2))
     subsets += [("ctx", "page", "body"), ("ctx", "module", "import"), ("ctx", "body", "module"), ("ctx", "import", "builtin"),
                 ("page", "body", "loop"), ("ctx", "defarg", "module"), ("ctx", "encl", "defarg"), ("body", "import", "module"),
-                ("ctx", "loop", "import"), ("ctx", "page", "module")]
+                ("ctx", "loop", "import"), ("ctx", "page", "module"),
+                ("nsother", "ctx", "builtin"), ("nsother", "import", "ctx"), ("nsother", "page", "body")]
     for S in subsets:
         for r in READS:
             if applicable(S, r):
